@@ -123,7 +123,11 @@ func (c *Cache[T]) ClearExpired() {
 	if len(toclear) > 0 {
 		c.mu.Lock()
 		for _, k := range toclear {
-			delete(c.data, k)
+			// the item may have been replaced by a fresh one since the read lock
+			// was released; only remove it if it is still expired
+			if item, ok := c.data[k]; ok && item.Expires > 0 && now > item.Expires {
+				delete(c.data, k)
+			}
 		}
 		c.mu.Unlock()
 	}
